@@ -113,6 +113,43 @@ def run_pm_unbounded(ctx):
     return r
 
 
+def make_temp_extend_run(lower, upper, end_negative, start=1):
+    """PsiContour.temporaryExtend on a real contour with symbolic points: startInd / endInd keep
+    designating THE SAME POINTS (the targets that addPointAtWallToContours put on the wall),
+    whichever of the two index conventions endInd uses (>= 0 from the start, < 0 from the end:
+    the latter is what _find_intersection leaves when it had to extend the contour to reach the
+    upper wall), for any number of added points."""
+    FN = "hypnotoad.core.equilibrium:PsiContour.temporaryExtend"
+
+    def run(ctx):
+        from hypnotoad.core import equilibrium as E
+
+        n = 5
+        Rs = [ctx.real("R%d" % i) for i in range(n)]
+        ctx.assume(And(*[a < b for a, b in zip(Rs, Rs[1:])]))
+        ctx.assume(And(Rs[0] > 10, Rs[-1] < 100))  # well inside the (R, Z) box of the equilibrium
+        c = E.PsiContour(points=[E.Point2D(r, 0.0) for r in Rs], psival=1.0, settings={}, Rrange=(0.0, 1000.0), Zrange=(-1.0, 1.0))
+        c.startInd = start
+        c.endInd = -2 if end_negative else n - 2
+        p_start, p_end = c[c.startInd], c[c.endInd]
+        before = list(c.points)
+        ds = ctx.real("ds")
+        ctx.assume(And(ds > 0, ds < 1))
+        c._coarseExtrapLower = lambda i: (lambda d: E.Point2D(c[0].R + d, 0.0))  # called with -ds
+        c._coarseExtrapUpper = lambda i: (lambda d: E.Point2D(c[-1].R + d, 0.0))
+        c.refinePoint = lambda p, tangent, psi=None: p
+        c.temporaryExtend(psi=None, extend_lower=lower, extend_upper=upper, ds_lower=ds, ds_upper=ds)
+        with spec_mode():
+            ctx.oblige(TRUE(len(c.points) == n + lower + upper and c.points[lower : lower + n] == before), "%d point(s) added below, %d above, the original points kept in order in between" % (lower, upper))
+            ctx.oblige(TRUE(c[c.startInd] is p_start), "startInd still designates the same point (the lower target)")
+            ctx.oblige(TRUE(c[c.endInd] is p_end), "endInd still designates the same point (the upper target)")
+            ctx.oblige(TRUE((c.endInd < 0) == end_negative), "endInd keeps its index convention")
+            ctx.oblige(TRUE(c[c.endInd] is c.points[-1]), "twin: endInd designates the last point", kind="must-fail")
+        return c
+
+    return run
+
+
 def wall_block():
     from hypnotoad.cases import tokamak as T
 
@@ -342,6 +379,9 @@ def build(S):
             for p2 in (False, True):
                 for cross in ((None, "pt") if p1 != p2 else ("pt",)):
                     S.contract("calcPenaltyMask[p1_out=%s,p2_out=%s,crossing=%s]" % (p1, p2, cross), FN_PM, make_pm_run(p1, p2, cross), shape="nx=ny=1")
+        S.under_contract("hypnotoad.core.equilibrium:PsiContour.temporaryExtend")
+        for lo, up, neg in ((0, 1, False), (0, 2, True), (0, 3, True), (2, 2, True), (2, 0, True), (1, 2, False), (0, 1, True)):
+            S.contract("temporaryExtend[lower=%d,upper=%d,endInd %s]" % (lo, up, "negative" if neg else "non-negative"), "hypnotoad.core.equilibrium:PsiContour.temporaryExtend", make_temp_extend_run(lo, up, neg), shape="5 symbolic points; extrapolation / refinePoint replaced by stubs")
         S.contract("calcPenaltyMask[unbounded equilibrium box]", FN_PM, run_pm_unbounded, shape="nx=ny=1, 4-vertex wall")
         for n in (3, 4, 5):
             S.contract("wall-normalisation[n=%d]" % n, FN_INIT, make_wall_run(n), expected_exceptions=(), shape="n=%d vertices" % n)
